@@ -16,7 +16,7 @@ run_one() {
   git -C /repo worktree add -q --detach $wt HEAD || { echo "$d worktree-failed"; return; }
   if git -C $wt apply $V/seeded/$d/patch.diff 2>/dev/null || git -C $wt apply --3way $V/seeded/$d/patch.diff >/dev/null 2>&1 || { [ -f $V/seeded/$d/patch-rebased.diff ] && git -C $wt apply $V/seeded/$d/patch-rebased.diff 2>/dev/null; }; then
     checks=$id
-    case $d in C05-w2-2) checks="C05 C12";; C11-2) checks="C04";; esac
+    case $d in C05-w2-2) checks="C05 C12";; C11-2) checks="C04";; C08-w5-2) checks="C08 C06";; C12-w5-1) checks="C12 C17";; esac
     res=missed
     for c in $checks; do
       VERIF_REPO=$wt $V/bin/check $c --tier quick > $OUT/$d-$c.log 2>&1; rc=$?
